@@ -159,3 +159,9 @@ package object
 
 //@ func (o *Obj) Val
 //@   loop 0: invariant result != nil && fresh(result) && forallkey(o.Pairs, k, visited(k) ==> has(result, k)) && forallkey(result, k, has(o.Pairs, k))
+
+// C10: an array prints its elements separated by ", "; the separator after the last element is
+// removed by length (two bytes), never by looking at the text of the last element
+//@ func (a *Array) String
+//@   call bytes.Buffer.Truncate#0: assert removes-exactly-the-last-separator: arg1 >= 0
+//@   modifies nothing
